@@ -437,6 +437,22 @@ def decide(chk, tier, seed):
         if not x["ok"]:
             broken.append((x["name"], x.get("detail", "")))
 
+    # --- thorough tier: the independent checker re-checks the property file and everything it depends on
+    coqchk_note = None
+    if tier == "thorough" and not ALT:
+        modname = "Dns." + chk.props_rel.replace("/", ".")
+        try:
+            rc, out = sh(["coqchk", "-silent", "-o", "-Q", "theories", "Dns", modname], cwd=COQ, timeout=5400)
+        except subprocess.TimeoutExpired:
+            rc, out = 124, "coqchk timed out"
+        m = re.search(r"\* Axioms:\s*(.*?)\n\s*\n", out, re.S)
+        ax = m.group(1).strip() if m else "?"
+        ok = rc == 0 and ax == "<none>"
+        coqchk_note = "coqchk -o %s: exit %d, axioms: %s" % (modname, rc, ax)
+        obligations.append(dict(name="coqchk " + modname, kind="independent-recheck", ok=ok, assumptions=ax))
+        if not ok:
+            broken.append(("coqchk " + modname, out[-1500:]))
+
     # --- decide
     findings = load_findings(prop)
     known = {e["key"]: e for e in findings if e.get("status") == "known"}
@@ -501,7 +517,7 @@ def decide(chk, tier, seed):
             trusted_base=["Coq 8.16.1 kernel incl. vm_compute (no native_compute)",
                           "axioms reported by Print Assumptions: " + (", ".join(axioms) if axioms else "none (closed under the global context)"),
                           "Go harness + vlib/core.py comparison of projected observables",
-                          ] + list(chk.trusted),
+                          ] + ([coqchk_note] if coqchk_note else []) + list(chk.trusted),
             obligation_list=obligations,
             evaluations=len(cases) + sum(v for k, v in stats.items() if k.endswith("_checked")),
             distinct_nontrivial=distinct,
